@@ -27,7 +27,8 @@ Proof.
     right. unfold handle in Hp. simpl in Hp.
     destruct (q_msg r0) eqn:Em;
       rewrite ?pre_start_workflow, ?pre_complete_workflow, ?pre_cancel_workflow, ?pre_start_stage, ?pre_complete_stage,
-              ?pre_skip_stage, ?pre_cancel_stage, ?pre_start_task, ?pre_complete_task, ?pre_signal, ?pre_jump in Hp; try discriminate.
+              ?pre_skip_stage, ?pre_cancel_stage, ?pre_start_task, ?pre_complete_task, ?pre_signal, ?pre_jump,
+              ?pre_pause_task, ?pre_resume_stage, ?pre_restart_stage in Hp; try discriminate.
     apply pre_run_task in Hp. destruct Hp as [Hc [Hpp [st [tk [G1 [G2 [G3 _]]]]]]]. subst p.
     exists s0, t, st, tk. repeat split; try assumption. apply run_task_guard_spec. exact G3. }
   destruct a; simpl; try (left; reflexivity).
@@ -41,6 +42,7 @@ Proof.
     + rewrite Hn. simpl. left. apply execs_commit.
     + rewrite Hp. simpl. right. exists i, t, st, tk. split; [|exact H]. f_equal. apply execs_commit.
   - left. unfold recover. apply execs_commit.
+  - left. apply execs_commit.
 Qed.
 
 (* stages and workflow status after a step = those of the last state of its commit trace *)
